@@ -74,6 +74,9 @@ ProjOK(r) == \E F \in {St(r.t, r.st, r.o)} :
                AbsLe(Sb(Mul(tf, den), Mul(F.n, Sb(hi, lo))), Mul(D!DScale(E(t), 2), Mul(Add(One, D!DSq(tf)), big)))
     IN  /\ (r.degenerate = 1) = ~FC!NonDegenerate(F)
         /\ r.hy = <<r.st[1], r.st[2]>>                       \* hither / yon are the near / far planes
+        \* the checked forms return the same bits wherever they return; a well-formed, non-degenerate frustum never throws
+        /\ (Has(r, "mExc") => r.mExc = r.m) /\ (Has(r, "aspectExc") => r.aspectExc = r.aspect)
+        /\ (FC!WellFormed(F) /\ FC!NonDegenerate(F) => Has(r, "mExc") /\ Has(r, "aspectExc"))
         /\ FC!WellFormed(F) =>
              /\ \A i \in 1..4, j \in 1..4 : QuotIs(M[i][j], FC!ProjEntry(F, i, j), E(t))
              /\ fovrel(tfx, F.r, F.l) /\ fovrel(tfy, F.t, F.b)
@@ -189,7 +192,11 @@ CullOK(r) == \E c \in {[pl |-> [k \in 1..6 |-> <<PN(r.t, r.planes[k]), PD(r.t, r
 EqOK(r) == /\ r.eq = <<1, 1, 0, 0, 0, 0, 0, 0, 0>>
            /\ r.ne = <<0, 0, 1, 1, 1, 1, 1, 1, 1>>
 
-Judge(r) == CASE r.e = "freq" -> EqOK(r) [] r.e = "step" -> StepOK(r) [] r.e = "proj" -> ProjOK(r) [] r.e = "pt" -> PtOK(r) [] r.e = "depth" -> DepthOK(r)
+\* the checked (...Exc) twins of the point and depth queries return the same bits wherever they return
+PtTwinsOK(r) == (Has(r, "sExc") => r.sExc = r.s) /\ (Has(r, "srExc") => r.srExc = r.sr) /\ (Has(r, "wrExc") => r.wrExc = r.wr)
+DepthTwinsOK(r) == (Has(r, "dExc") => r.dExc = r.d) /\ (Has(r, "ZExc") => r.ZExc = r.Z) /\ (Has(r, "d2Exc") => r.d2Exc = r.d2)
+
+Judge(r) == CASE r.e = "freq" -> EqOK(r) [] r.e = "step" -> StepOK(r) [] r.e = "proj" -> ProjOK(r) [] r.e = "pt" -> PtTwinsOK(r) /\ PtOK(r) [] r.e = "depth" -> DepthTwinsOK(r) /\ DepthOK(r)
               [] r.e = "setfov" -> SetFovOK(r) [] r.e = "planesM" -> PlanesMOK(r) [] r.e = "cull" -> CullOK(r) [] OTHER -> FALSE
 What(r) == CASE r.e = "step" -> <<r.e, r.t, r.op, r.prog, r.step>> [] r.e \in {"planesM", "cull"} -> <<r.e, r.t, r.fam>> [] OTHER -> <<r.e, r.t>>
 Init == l = 1 /\ cur = <<<<>>, <<>>, 0>>
